@@ -320,28 +320,29 @@ def _parse(text):
     return int(head), out
 
 
-def same_up_to_relabelling(impl_text, model_text, shuf_a, shuf_b):
-    """The model enumerates POSITIONS of the (possibly shuffled) data set, the loader delivers ORIGINAL indices. With a shuffle
-    flag the statement leaves the permutation free, so the two traversals must agree up to one injective relabelling
-    position -> index per side (however the library draws its permutation); without the flag they must agree literally."""
+def canonical(text, shuf_a, shuf_b):
+    """What of a pass the statement fixes: the collection of batches, NOT the order in which they are presented, and — on a
+    side whose shuffle flag is set — not which data rows sit at which position either.  Per batch the index tuple of an
+    unshuffled side and the size of a shuffled side; per shuffled side the sorted numbers of batches each index occurs in;
+    the number of distinct (function, location) pairs presented; the announced length."""
+    n, bs = _parse(text)
+    keys = sorted((tuple(a) if not shuf_a else len(a), tuple(b) if not shuf_b else len(b)) for a, b in bs)
+    deg = []
+    for side, shuf in ((0, shuf_a), (1, shuf_b)):
+        cnt = {}
+        for x in bs:
+            for i in x[side]:
+                cnt[i] = cnt.get(i, 0) + 1
+        deg.append(sorted(cnt.values()) if shuf else None)
+    pairs = len({(f, x) for a, b in bs for f in a for x in (b or [None])})
+    return n, keys, deg, pairs
+
+
+def same_traversal(impl_text, model_text, shuf_a, shuf_b):
     try:
-        li, bi = _parse(impl_text)
-        lm, bm = _parse(model_text)
+        return canonical(impl_text, shuf_a, shuf_b) == canonical(model_text, shuf_a, shuf_b)
     except ValueError:
         return impl_text == model_text
-    if li != lm or len(bi) != len(bm):
-        return False
-    for side, shuf in ((0, shuf_a), (1, shuf_b)):
-        fwd, bwd = {}, {}
-        for x, y in zip(bi, bm):
-            if len(x[side]) != len(y[side]):
-                return False
-            for i, m in zip(x[side], y[side]):
-                if not shuf and i != m:
-                    return False
-                if fwd.setdefault(m, i) != i or bwd.setdefault(i, m) != m:
-                    return False
-    return True
 
 
 def judge(rep, case, res, model_reply):
@@ -353,7 +354,7 @@ def judge(rep, case, res, model_reply):
     if kind in ("pts", "deeponet"):
         rep.count(f"{kind}:{case.get('layout','')}")
         shuf = (case.get("shuffle", 0), 0) if kind == "pts" else (case["shB"], case["shT"])
-        if not same_up_to_relabelling(res["text"], model_reply, *shuf):
+        if not same_traversal(res["text"], model_reply, *shuf):
             rep.disagree("loader index sets: drivers/C16.lean `" + model_line(case).split()[0] + "` vs iteration of the real loader",
                          case, res["text"], model_reply)
         for p in res["problems"]:
